@@ -333,7 +333,14 @@ func main() {
 				os.Remove(out)
 				if rerr != nil {
 					mu.Lock()
-					engineErrs = append(engineErrs, fmt.Sprintf("worker slot %d epoch %d produced no summary (%v): %s", slot, epoch, err, tail(txt, 6000)))
+					dump := filepath.Join(verifDir, "replays", fmt.Sprintf("engine-%s-seed%d-slot%d-epoch%d.log", id, seed, slot, epoch))
+					os.MkdirAll(filepath.Dir(dump), 0o755)
+					os.WriteFile(dump, []byte(strings.Join(env[:len(env)-1], " ")+"\n"+txt), 0o644)
+					head := txt
+					if len(head) > 3000 {
+						head = head[:3000] + "\n..."
+					}
+					engineErrs = append(engineErrs, fmt.Sprintf("worker slot %d epoch %d (start %d) produced no summary (%v); full output in %s; it begins: %s\n... and ends: %s", slot, epoch, next, err, dump, head, tail(txt, 3000)))
 					stop = true
 					mu.Unlock()
 					return
